@@ -8,6 +8,8 @@ import Q1t.Proofs.LatexOnce
 import Q1t.Proofs.LatexExpect
 import Q1t.Proofs.LatexProv
 import Q1t.Proofs.LatexLoops
+import Q1t.Proofs.LatexBrace
+import Q1t.Proofs.LatexGroup
 /-!
 # C13 — the LaTeX (qcircuit) export is a well-formed grid depicting the circuit; undrawable operations are errors
 
@@ -16,7 +18,7 @@ Property theorems only.  Statements are about the executable model `Q1t.Latex` o
 correspondence run of `tools/check.py C13`), and about the grid of symbols `Q1t.Latex.grid` that the
 model's `code` prints (that the exported TEXT reads back as this grid is checked at run time by the
 reader `Spec.QcGrid.readDoc` on the implementation's output, not proved).
-Proofs are in `Q1t/Proofs/Latex{Basic,Shape,Conn,Inv,Trace,Stages,Once,Expect,Prov,NoPanic,Loops}.lean`.
+Proofs are in `Q1t/Proofs/Latex{Basic,Shape,Conn,Inv,Trace,Stages,Once,Expect,Prov,NoPanic,Loops,Brace,Group}.lean`.
 -/
 namespace Q1t.Props.C13
 open Q1t.Latex Q1t.Spec.QcGrid Q1t.Proofs.Latex
@@ -47,7 +49,9 @@ controlled nesting C<…> of the former four with every control outside the span
 distinct operands (CX … CCZ), and Kron / Composite / Loop of all these to any depth; conditional
 gates whose gate is such a one-column gate (`condOk`: distinct qubits, distinct condition bits);
 measure, measure_all, reset, reset_all, barrier, peek.
-Excluded: multi-qubit block gates (the trait's default drawing; modelled and compared, not proved);
+Also inside: multi-qubit block gates (the trait's default drawing) at placements satisfying the decidable
+`blockOk` (see "Multi-qubit block gates" below), at top level and inside Kron / Composite / Loop.
+Excluded: block gates under a quantum or classical control;
 Kron / Composite / Loop / I under a quantum or classical control (genuinely wrong or degenerate on
 the pinned code, see the negative witnesses and the known findings).
 -/
@@ -120,7 +124,7 @@ later operation is drawn left of / under an earlier barrier; `neg_controlled_kro
 The tie of `circStages` to the independent reader's expectation `Spec.QcGrid.opItems` is
 `stages_are_expected_partial` (all `opOk` operations except reset_all / barrier, whose stages the reader
 groups differently) and `stage_is_expected_partial` (one-column operations).
-What is NOT proved: multi-qubit block gates (outside `opOk`); that the reader's left-to-right matching
+What is NOT proved: multi-qubit block gates under a control / condition (outside `opOk`); that the reader's left-to-right matching
 (`Spec.QcGrid.check`, an executable search) accepts the printed text — that is evaluated by (B). -/
 
 /-- **each_op_once** (partial: `opOk`) — the final matrix is EXACTLY the reference stages of the
@@ -212,13 +216,128 @@ does not look for them) match the reader's stage items `opItems` ONE BY ONE AND 
 being an acceptable drawing of exactly the marks of its item (`StageMatches`). Together with
 `each_op_once_partial` (the matrix is exactly the stages laid out, left to right, without collisions):
 every operation appears exactly once, as the reader expects it.
-Not covered: reset_all (the reader expects one stage per qubit, the code draws — legitimately — one
-column) and barrier (the reader expects one stage holding all runs): grouping differs, evaluated by (B);
+Not covered here: reset_all (the reader expects one stage per qubit, the code draws — legitimately — one
+column) and barrier (the reader expects one stage holding all runs): grouping differs, see
+`resetall_is_expected`, `barrier_is_expected_partial`, `barrier_one_column_partial`;
 loop braces (header line) and the `connected` flag of a stage (that is `connector_span_clear_partial`). -/
 theorem stages_are_expected_partial (nq : Nat) (op : Op) (hop : opOk op = true) (hm : op.malformed nq = false)
     (hk : matchable op = true) :
     StagesMatch (visible (opStages nq op)) (itemStages (opItems nq op)) :=
   opStages_items nq op hop hm hk
+
+/-
+FULL STATEMENT (false on the pinned code: `neg_empty_loop_body_brace`, finding `loop-brace:empty-loop-body`;
+nested loops panic: `neg_nested_loop_panics`): every loop of three or more iterations gets a brace in the
+header line that spans exactly the columns of the loop's symbols and nothing of another operation.
+Proved for every circuit over `opOk ∧ opSafe` operations and every loop in it whose body draws at least
+one stage. `(start, stop, n)` is the record `code` prints as `\POS"2,start+2"…"2,stop+2"…{n\times}` and the
+reader (`Spec.QcGrid.readBrace`) reads back as `Brace ⟨start, stop, n⟩`; the reader's demands on a brace
+(`matchItem … .loopEnd`: covers the loop's stage columns, the other covered columns are empty; `opsDepicted`:
+nothing of another operation under it) follow from the iff below. That the TEXT reads back is (B).
+-/
+/-- **loop_brace** (partial: `opOk ∧ opSafe`, loop body that draws something). -/
+theorem loop_brace_partial (nq nc : Nat) (pre post : List Op) (n : Nat) (body : Gate) (bits : List Nat) (s : St)
+    (hpre : ∀ op ∈ pre, opOk op = true ∧ opSafe nq op = true)
+    (hop : opOk (.gate (.loop n body) bits) = true ∧ opSafe nq (.gate (.loop n body) bits) = true)
+    (hpost : ∀ op ∈ post, opOk op = true ∧ opSafe nq op = true)
+    (hbig : 3 ≤ n) (hst : gateStages body bits false ≠ [])
+    (h : exportSt ⟨nq, nc, pre ++ .gate (.loop n body) bits :: post⟩ = .ok s) :
+    ∃ start stop, (start, stop, n) ∈ s.loops ∧ start ≤ stop ∧ stop < s.rcols.length ∧
+      ∀ c r x, Has s c r x → (x.prov = pre.length ↔ (start ≤ c ∧ c ≤ stop)) :=
+  loop_brace_circuit hpre hop hpost hbig hst h
+
+/-- Non-vacuity: H; Loop 3 {Z}; H — the hypotheses hold and the brace is columns 1..3 (Z, `\cds`, Z). -/
+example :
+    let lp : Op := .gate (.loop 3 (.comp "b" 1 (.cons .z [0] .nil))) [1]
+    (opOk lp = true ∧ opSafe 2 lp = true) ∧ gateStages (.comp "b" 1 (.cons .z [0] .nil)) [1] false ≠ [] ∧
+    (exportSt ⟨2, 0, [.gate (.box "H" 1) [0]] ++ lp :: [.gate (.box "H" 1) [1]]⟩ >>== fun s => .ok (s.loops, s.rcols.length)) =
+      .ok ([(1, 3, 3)], 5) := by decide
+
+/-- The excluded case is the known finding `loop-brace:empty-loop-body`: a loop whose body draws nothing
+records the brace 0..1 although column 1 holds the H of the NEXT operation. -/
+theorem neg_empty_loop_body_brace :
+    (exportSt ⟨1, 0, [.gate (.loop 3 (.comp "b" 1 .nil)) [0], .gate (.box "H" 1) [0]]⟩ >>== fun s =>
+      .ok (s.loops, s.rcols.reverse.map fun col => col.map fun c => c.map fun x => (x.prov, x.sym))) =
+    .ok ([(0, 1, 3)], [[some (0, .cds 0 "\\cdots")], [some (1, .gate "H" none)]]) := by decide
+
+/-! ### reset_all and barrier against the reader (grouping differs, so the tie is on the flattened stages) -/
+
+/-- **reset_all is what the reader expects** — for every register size: the reference stage (ONE column,
+`each_op_once_partial`) consists, symbol by symbol and in order, of the reader's marks, one reset per
+qubit (the reader makes one stage item per qubit and accepts them in one column). -/
+theorem resetall_is_expected (nq : Nat) :
+    (opStages nq .resetAll).flatten = (List.range nq).map (fun q => (q, Sym.reset)) ∧
+    (itemStages (opItems nq .resetAll)).flatten = (List.range nq).map (fun q => (⟨q, .reset⟩ : Mark)) ∧
+    StageMatches (opStages nq .resetAll).flatten (itemStages (opItems nq .resetAll)).flatten :=
+  resetAll_expected nq
+
+/-- **barrier is what the reader expects** (partial: the decidable side condition `barrierOk`: the runs
+computed by `support::get_ranges` are the maximal runs of the qubit set the reader computes, with
+distinct first rows — see `barrier_side_condition_small`): the reference stages, flattened, are the
+reader's marks, one `\barrier{k}` on the first qubit of every run. NOT proved: `barrierOk` for every list
+of distinct qubits of every register (needs the theory of the insertion sort in `get_ranges`). -/
+theorem barrier_is_expected_partial (nq : Nat) (qbits : List Nat) (h : barrierOk nq qbits = true) :
+    (opStages nq (.barrier qbits)).flatten = (runs qbits nq).map (fun p => (p.1, Sym.barrier (p.2 - p.1))) ∧
+    (itemStages (opItems nq (.barrier qbits))).flatten =
+      (runs qbits nq).map (fun p => (⟨p.1, .barrier (p.2 - p.1)⟩ : Mark)) ∧
+    StageMatches (opStages nq (.barrier qbits)).flatten (itemStages (opItems nq (.barrier qbits))).flatten :=
+  barrier_expected nq qbits h
+
+/-- FINITE (kernel, the complete enumeration): the side condition holds for EVERY non-empty list of
+distinct qubits of every register of up to 5 qubits. -/
+theorem barrier_side_condition_small : ∀ n ∈ List.range 6, ∀ k ∈ List.range n, ∀ l ∈ distinctLists n (k + 1),
+    barrierOk n l = true :=
+  barrierOk_small
+
+/-- … and all symbols of the barrier sit in ONE column, the freshly started last one (the reader wants
+the marks of its single stage item in one column). For any state satisfying the invariant. -/
+theorem barrier_one_column_partial (q : List Nat) (s s' : St) (hinv : Inv s) (hok : barrierOk s.nq q = true)
+    (h : setBarrier q s = .ok s') :
+    ∃ L, Trace s s' L ∧ L.map (·.ws) = barrierStages (runs q s.nq) ∧ ∀ g ∈ L, g.col + 1 = s'.rcols.length :=
+  barrier_one_column hinv hok h
+
+/-- Non-vacuity: a barrier over qubits 3,0,1 of 5 → runs 0..1 and 3..3, two symbols in one column. -/
+example : barrierOk 5 [3, 0, 1] = true ∧ runs [3, 0, 1] 5 = [(0, 1), (3, 3)] ∧
+    opStages 5 (.barrier [3, 0, 1]) = [[(0, .barrier 1)], [(3, .barrier 0)]] ∧
+    (exportSt ⟨5, 0, [.gate (.box "H" 1) [0], .barrier [3, 0, 1]]⟩ >>== fun s => .ok (grid s)) =
+      .ok (some [[.gate "H" none, .barrier 1, .qw], [.qw, .qw, .qw], [.qw, .qw, .qw], [.qw, .barrier 0, .qw], [.qw, .qw, .qw]]) := by
+  decide
+
+/-! ### Multi-qubit block gates (the trait's default drawing)
+
+A gate drawn by `add_block_gate` on `n ≥ 2` qubits at a placement satisfying the decidable `blockOk`
+(what `get_ranges` yields for the operands gives distinct written rows, all between two operands and
+exactly the operands, every `\qwx` link ending on a part of the box) is INSIDE `opOk` (at top level and
+inside Kron / Composite / Loop; not under a quantum control or a classical condition). Hence all the
+theorems above (`grid…`, `connectors_in_grid_on_partner_partial`, `each_op_once_partial`,
+`connector_span_clear_partial`, `stages_are_expected_partial`, `latex_never_panics_partial`,
+`loop_brace_partial`) cover it; its reference stage is `blockWrites label operands`: per run of qubits
+a `\gate` or a `\multigate{k}` on `k` ghosts, the later runs linked upwards by `\qwx`. -/
+
+/-- FINITE (kernel, the complete enumeration): `blockOk` holds for EVERY placement of a block gate on
+2..5 distinct qubits of a register of up to 5 qubits (4 + 12 + 60 + 320 placements). NOT proved: `blockOk`
+for all registers (needs the theory of the insertion sort in `get_ranges`); it is decidable per instance. -/
+theorem block_placements_small : ∀ n ∈ List.range 6, ∀ k ∈ List.range n, 1 ≤ k →
+    ∀ l ∈ distinctLists n (k + 1), blockOk "G" (k + 1) l = true := by decide +kernel
+
+/-- In the drawing of a block gate every `\multigate{k}` carries the gate's label and sits on `k` ghosts
+with that label directly below it (the reader's `extentOk`); for every label and operand list. -/
+theorem block_multigate_extent (d : String) (bits : List Nat) (r k : Nat) (d' : String) (q' : Option Int)
+    (h : (r, Sym.multigate k d' q') ∈ blockWrites d bits) :
+    d' = d ∧ ∀ j, j < k → (r + 1 + j, Sym.ghost d) ∈ blockWrites d bits :=
+  blockWrites_extent d bits r k d' q' h
+
+/-- Non-vacuity: H; a 3-qubit block on qubits 3,0,1 of 4; a measurement — all inside `opOk ∧ opSafe`; the
+block is one stage (multigate on a ghost, linked box) in one column, with the span 0..3 reserved. -/
+example :
+    let c : Circ := ⟨4, 1, [.gate (.box "H" 1) [1], .gate (.box "G" 3) [3, 0, 1], .measure 0 0 .Z]⟩
+    (∀ op ∈ c.ops, opOk op = true ∧ opSafe c.nq op = true) ∧
+    circStages c = [(0, [(1, .gate "H" none)]),
+      (1, [(0, .multigate 1 "G" none), (1, .ghost "G"), (3, .gate "G" (some (-2)))]),
+      (2, [(0, .meter none), (4, .cwx (-4))])] ∧
+    (exportSt c >>== fun s => .ok (grid s)) = .ok (some
+      [[.qw, .multigate 1 "G" none, .meter none, .qw], [.gate "H" none, .ghost "G", .qw, .qw], [.qw, .qw, .qw, .qw],
+       [.qw, .gate "G" (some (-2)), .qw, .qw], [.cw, .cw, .cwx (-4), .cw]]) := by decide
 
 /-! ## Tie to the source: templates and the gate table are re-extracted on every run -/
 
